@@ -71,7 +71,7 @@ impl Property for C03 {
     }
     fn runs(&self, tier: Tier) -> usize {
         match tier {
-            Tier::Quick => 6000,
+            Tier::Quick => 12_000,
             Tier::Thorough => 120_000,
         }
     }
